@@ -105,6 +105,9 @@ fn gen_case(rng: &mut Rng) -> Case {
         _ => {}
     }
     let mut offset = None;
+    // corner-offset belongs to corner connectors; written on any other connector it has no effect and, like
+    // start / end / edge-type, does not reach the output
+    if kind != "corner" && rng.chance(1, 5) { conn.push("corner-offset", *rng.pick(&["4", "25%", "-2"])); }
     if kind == "corner" && rng.chance(1, 2) {
         let o = rng.pick(&["2", "5", "25%", "75%", "50%", "-3", "-4", "-1.5", "0", "100%", "0%"]).to_string();
         conn.push("corner-offset", &o);
